@@ -93,6 +93,25 @@ def quats_of(w, G, *params):
     return out
 
 
+def fresh_on_manifold(w, G, name):
+    """Fresh element of G -> (element, parameter vector, unit-quaternion atom tuples to declare).
+    A composite group on a DCM factor gets its nine rotation parameters from R(q), q a fresh unit quaternion: every
+    rotation matrix is R(q) for some unit q (L4), so an identity for all unit q IS the identity on SO(3), whereas nine
+    free symbols would make every identity that needs orthonormality look violated.  Other groups: free symbols, and
+    the quaternion slot (if any) declared unit."""
+    if rot_kind(w, G) == "dcm" and rot_factor(w, G) is not G:
+        a, b = rot_slice(w, G)
+        D = rot_factor(w, G)
+        Q = w.G("SO3Quat")
+        t = w.sym(name, a)
+        q = w.sym(name + "q", 4)
+        dcm = w.param(w.call(D, "from_Matrix", w.call(w.elem(Q, q), "to_Matrix")))
+        p = cm.vertcat(t, dcm) if a else dcm
+        return w.elem(G, p), p, [tuple(sym_atoms_of(q))]
+    X, p = w.fresh(G, name)
+    return X, p, quats_of(w, G, p)
+
+
 def verdict(rep, rule, instance, A, B, quats=(), where=None, what="", unknown_ok=False, fact=None):
     """Compare two matrices; record ok / fail / incomplete.  Returns the verdict string."""
     v, d = decide_mat(A, B, quats)
